@@ -30,7 +30,9 @@ CONSTANTS Procs, NameOf,      \* process -> the counter name it increments (once
           MaxSlots, MaxPages,
           MaxTries,           \* remap attempts before giving up (10 in the code)
           AllowKill,
-          FixF16              \* repair: a duplicate scan that leaves the mapping gives its record up and starts over
+          FixF16,             \* repair: a duplicate scan that leaves the mapping gives its record up and starts over
+          MaxVal,             \* the value at which a counter sticks instead of wrapping (2^64-1 in the code)
+          WarmName, WarmVal   \* a record that exists (linked, value WarmVal) before the race starts; "none" = no such record
 
 DEAD == -1
 NoRec == [name |-> "none", len |-> FALSE, next |-> 0, val |-> 0]
@@ -43,11 +45,18 @@ shared == <<size, limit, head, rec>>
 locals == <<maplen, pc, ph, rm, lhead, off, lim, start, tries, old, vslot, vold, err>>
 vars == <<shared, alive, locals, done>>
 
+NInit == IF WarmName = "none" THEN InitSlots ELSE InitSlots + 1   \* records present at the start
+Size0  == PageOf(IF NInit = 0 THEN 1 ELSE NInit)
+Limit0 == NInit
+Head0  == [b \in Buckets |-> IF WarmName # "none" /\ b = BucketOf[WarmName] THEN NInit ELSE 0]
+Rec0   == [s \in 1..MaxSlots |-> IF s <= InitSlots THEN [name |-> "filler", len |-> TRUE, next |-> 0, val |-> 1]
+                                  ELSE IF s = NInit THEN [name |-> WarmName, len |-> TRUE, next |-> 0, val |-> WarmVal]
+                                  ELSE NoRec]
 Init ==
-  /\ size = PageOf(IF InitSlots = 0 THEN 1 ELSE InitSlots)
-  /\ limit = InitSlots
-  /\ head = [b \in Buckets |-> 0]
-  /\ rec = [s \in 1..MaxSlots |-> IF s <= InitSlots THEN [name |-> "filler", len |-> TRUE, next |-> 0, val |-> 1] ELSE NoRec]
+  /\ size = Size0
+  /\ limit = Limit0
+  /\ head = Head0
+  /\ rec = Rec0
   /\ alive = [p \in Procs |-> TRUE]
   /\ maplen = [p \in Procs |-> size]
   /\ pc = [p \in Procs |-> "P_start"]
@@ -224,7 +233,7 @@ VLoad(p) ==
 VCas(p) ==
   /\ pc[p] = "V_cas"
   /\ IF rec[vslot[p]].val = vold[p]
-     THEN /\ rec' = [rec EXCEPT ![vslot[p]].val = vold[p] + 1]
+     THEN /\ rec' = [rec EXCEPT ![vslot[p]].val = IF vold[p] + 1 > MaxVal THEN MaxVal ELSE vold[p] + 1]   \* sticks, never wraps
           /\ done' = Set(done, p, TRUE) /\ pc' = Set(pc, p, "Done")
      ELSE /\ UNCHANGED <<rec, done>> /\ pc' = Set(pc, p, "V_load")
   /\ UNCHANGED <<size, limit, head, alive, rm, ph, maplen, lhead, off, lim, start, tries, old, vslot, vold, err>>
@@ -260,7 +269,9 @@ WellFormed ==
 UniqueNames == \A i, j \in Linked : (i # j /\ i >= 1 /\ j >= 1 /\ rec[i].name \in Names) => rec[i].name # rec[j].name
 ValueOf(n) == LET ss == {s \in Linked : s >= 1 /\ rec[s].name = n} IN IF ss = {} THEN 0 ELSE rec[CHOOSE s \in ss : TRUE].val
 (* every counter equals the number of completed atomic adds, in every state *)
-ValuesExact == \A n \in Names : ValueOf(n) = Cardinality({p \in Procs : NameOf[p] = n /\ done[p]})
+WarmOf(n) == IF n = WarmName THEN WarmVal ELSE 0
+Sat(x) == IF x > MaxVal THEN MaxVal ELSE x
+ValuesExact == \A n \in Names : ValueOf(n) = Sat(WarmOf(n) + Cardinality({p \in Procs : NameOf[p] = n /\ done[p]}))
 LimitMonotone == [][limit' >= limit /\ size' >= size]_vars
 ValuesMonotone == [][\A s \in 1..MaxSlots : rec'[s].val >= rec[s].val]_vars
 (* no surviving process is made to fail by what another process did or by its death *)
